@@ -94,7 +94,35 @@ class C06(F.PropCheck):
         c = consts(); cd = c['CHFLAG_COUNTDOWN']; it3 = [('ITER', [], b'')] * 3
         n = rng.choice([1, 2, 3]); gp = rng.sample(C7.GPIOS, n)
         rel = [(gp[i], i, rng.choice([0, 0, 16, 2]), cd if rng.random() < 0.4 else 0) for i in range(n)]
-        if rng.random() < 0.55:
+        kind = rng.random()
+        if kind < 0.3:
+            # TCP back-pressure: espconn_sent refuses (INPROGRESS / MAXNUM) the frames of a relay command, once or several times in a row;
+            # plain relays only (two small frames per request: the out-queue findings and the 500-byte send buffer stay out)
+            rel = [(g, ch, f, 0) for (g, ch, f, cf) in rel]
+            evs = [C7.cfg_event(1, 1, 0, False, rel, [0] * 8, [], [0]), ('REG', [], b'')]
+            for _ in range(rng.choice([1, 2, 3])):
+                i = rng.randrange(n); k = rng.choice([1, 2, 2, 3, 4])
+                evs.append(('SENTRES', [rng.choice([c['SENT_INPROGRESS'], c['SENT_MAXNUM']]) for _ in range(k)], b''))
+                evs.append(('SETV', [i, rng.choice([0, 1]), rng.choice([0, 0, 2000]), 40 + i], b'') if rng.random() < 0.8 else ('GRP', [i, 1, 0], b''))
+                if rng.random() < 0.3: evs.append(('SETV', [rng.randrange(n), rng.choice([0, 1]), 0, 50], b''))
+                evs += [('ITER', [], b'')] * (k + 4)
+            return F.Case(cid, evs, ['link-busy'])
+        if kind < 0.55:
+            # a channel-config message that CHANGES the staircase time while the relay is on, then the old / new period passes
+            rel = [(g, ch, f, cf) for (g, ch, f, cf) in rel]
+            t2 = [0] * 8; i = rng.randrange(n)
+            if rng.random() < 0.5: t2[i] = rng.choice([1500, 3000])
+            evs = [C7.cfg_event(1, 1, rng.choice([0, 1]), False, rel, t2, [], [0]), ('REG', [], b'')]
+            evs += [('SETV', [i, 1, 0, 9], b'')] + it3
+            if rng.random() < 0.5: evs += [('TICK', [rng.choice([100000, 400000])], b'')] + it3
+            new = rng.choice([0, 2000, 800, 5000]) if t2[i] else rng.choice([2000, 800, 5000])
+            K = c
+            evs.append(('CHCFG', [i, K['FNC_STAIRCASE'], 0, K['SIZEOF_STAIR_CFG'], new], b'') if new else ('CHCFG', [i, K['FNC_POWERSWITCH'], 0, 4, 0], b''))
+            evs += it3
+            for dt in (400000, max(t2[i], new) * 1000 + 300000, 3000000):
+                evs += [('TICK', [dt], b'')] + it3
+            return F.Case(cid, evs, ['chcfg-on'])
+        if kind < 0.8:
             t2 = [0] * 8; i = rng.randrange(n); t2[i] = rng.choice([800, 2000, 5000])
             ty = rng.choice([c['IN_MONO'], c['IN_MONO'], c['IN_BI']]); fl = rng.choice([0, c['IN_FLAG_ON_PRESS']])
             inputs = [rng.choice([6, 7, 8]), ty, fl, gp[i], 255]
@@ -144,6 +172,7 @@ class C06(F.PropCheck):
         qprev = (0, 0); tprev = 0
         OP8 = 8 * C7.relay_op_us()
         time2 = list(cfg['time2']); timed = {}       # relay index -> (t_cmd, d_ms): "on for d" accepted and not cancelled since
+        quiet = set()                                 # relays whose timer a config message cancelled (staircase -> plain switch): no timer until the next command
         inputs = []; rest = cfg['rest']
         for j in range(rest[0] if rest else 0): inputs.append(tuple(rest[1 + 5 * j: 6 + 5 * j]))
         for o in segs[0] if segs else []:
@@ -164,6 +193,9 @@ class C06(F.PropCheck):
                     if clicked == i_ and level(i_) == 0:
                         v.append('STAIR-CLICK a click of the (reset-type) staircase button switched relay gpio %d (channel %d, staircase time %d ms) OFF; it must restart the period and leave it on' %
                                  (rel[i_][0], rel[i_][1], time2[rel[i_][1]]))
+                    if e[0] == 'TICK' and i_ in quiet:
+                        v.append('SPURIOUS relay gpio %d (channel %d) switched by itself at a timer tick although the config message made it a plain switch and cancelled its timer' % (rel[i_][0], rel[i_][1]))
+                        quiet.discard(i_)
                     if e[0] == 'TICK' and i_ in timed and level(i_) == 0 and o[1][0] - timed[i_][0] <= (timed[i_][1] - 1) * 1000:
                         v.append('EARLY relay gpio %d switched back %d us after "on for %d ms" (channel %d)' % (rel[i_][0], o[1][0] - timed[i_][0], timed[i_][1], rel[i_][1]))
                         del timed[i_]
@@ -172,9 +204,17 @@ class C06(F.PropCheck):
                 elif o[0] == 'RES': got_res.append(tuple(o[1][1:4]))
             if e[0] == 'REG': registered = True; changed = set(); reported = {}
             if e[0] == 'TIME2' and 0 <= e[1][0] < 8: time2[e[1][0]] = e[1][1]
-            if e[0] == 'BTN' and 0 <= e[1][0] < len(inputs) and inputs[e[1][0]][3] in pinidx: timed.pop(pinidx[inputs[e[1][0]][3]], None)
+            if e[0] == 'CHCFG':
+                cc = C7.chcfg_time(e[1])
+                if cc is not None and cc[1] != time2[cc[0]]:       # a changed staircase time: the timer of the channel is set up anew from the NEW time
+                    time2[cc[0]] = cc[1]
+                    if cc[0] in chidx:
+                        i_ = chidx[cc[0]]; timed.pop(i_, None); quiet.discard(i_)
+                        if cc[1] == 0: quiet.add(i_)                                   # now a plain switch: nothing may switch it by itself
+                        elif level(i_) == 1 and cc[1] < 2**31: timed[i_] = (tprev, cc[1])    # a staircase that is on: off after the new time
+            if e[0] == 'BTN' and 0 <= e[1][0] < len(inputs) and inputs[e[1][0]][3] in pinidx: timed.pop(pinidx[inputs[e[1][0]][3]], None); quiet.discard(pinidx[inputs[e[1][0]][3]])
             if e[0] in ('SETV', 'GRP') and (e[1][0] & 255) in chidx:
-                i_ = chidx[e[1][0] & 255]; timed.pop(i_, None)
+                i_ = chidx[e[1][0] & 255]; timed.pop(i_, None); quiet.discard(i_)
                 if registered and e[1][1] == 1 and 0 < e[1][2] < 2**31 and time2[e[1][0] & 255] == 0: timed[i_] = (tprev, e[1][2])
             if e[0] == 'TICK' and e[1][0] >= 0:
                 # the countdown callback ran at tprev + dt: every "on for d" whose time is over by then must have switched back
